@@ -3,11 +3,25 @@
 uint64_t vf_inlog[VF_NLOG];
 unsigned vf_inlog_n;
 
+#ifndef VF_SEQ
 __thread int vf_unw;
 __thread void *vf_exc_obj;
 __thread int vf_exc_sel;
 __thread int vf_tid;
 __thread int vf_spur;
+#else
+int vf_tid;
+int vf_unw_a[VF_NTHREADS];
+void *vf_exc_obj_a[VF_NTHREADS];
+int vf_exc_sel_a[VF_NTHREADS];
+int vf_spur_a[VF_NTHREADS];
+void *vf_caught_a[VF_NTHREADS];
+int vf_pc[VF_NTHREADS];
+_Bool vf_blk;
+_Bool vf_paused;
+int vf_in_ghost;
+int vf_vis_t;
+#endif
 
 _Bool vf_fin[VF_NTHREADS];
 _Bool vf_stuck[VF_NTHREADS];
@@ -15,7 +29,19 @@ _Bool vf_woken[VF_NTHREADS];
 uint64_t vf_parked[VF_NTHREADS];
 _Bool vf_spawned[VF_NTHREADS];
 uint64_t vf_thr_arg[VF_NTHREADS];
+#ifndef VF_SEQ
+int vf_errno;
+int *vf_errno_location(void) { return &vf_errno; }
+#else
+int vf_errno_a[VF_NTHREADS];
+int *vf_errno_location(void) { return &vf_errno_a[vf_tid]; }
+#define vf_errno vf_errno_a[vf_tid]
+#endif
 
+#ifdef VF_SEQ
+uint64_t vf_in_last; /* trace marker: every harness input, in consumption order */
+static inline uint64_t vf_log_in(uint64_t v) { vf_in_last = v; return v; }
+#else
 static inline uint64_t vf_log_in(uint64_t v) {
 #ifndef VF_NO_INLOG
   __CPROVER_atomic_begin();
@@ -26,6 +52,7 @@ static inline uint64_t vf_log_in(uint64_t v) {
 #endif
   return v;
 }
+#endif
 uint8_t vf_nondet_u8(void) { return (uint8_t)vf_log_in(nondet_u8()); }
 uint16_t vf_nondet_u16(void) { return (uint16_t)vf_log_in(nondet_u16()); }
 uint32_t vf_nondet_u32(void) { return (uint32_t)vf_log_in(nondet_u32()); }
@@ -34,9 +61,14 @@ _Bool vf_nondet_bool(void) { return (_Bool)vf_log_in(nondet_bool()); }
 void vf_atomic_begin(void) { __CPROVER_atomic_begin(); }
 void vf_atomic_end(void) { __CPROVER_atomic_end(); }
 int vf_self(void) { return vf_tid; }
+#ifndef VF_SEQ
 _Bool vf_is_dead(void) { return vf_unw == 1; }
+#else
+_Bool vf_is_dead(void) { return 0; }
+#endif
 void vf_note(uint32_t tag, uint64_t v) { (void)tag; (void)v; }
 
+#ifndef VF_SEQ
 void vf_thread_done(int t) {
   if (vf_unw == 1) { /* stuck[] already set at the park */ }
   else {
@@ -63,8 +95,6 @@ _Bool vf_any_stuck(void) {
 #ifndef VF_FUTEX_TIMEOUTS
 #define VF_FUTEX_TIMEOUTS 0
 #endif
-int vf_errno;
-int *vf_errno_location(void) { return &vf_errno; }
 
 /* park the calling thread on addr until woken; returns 1 if the thread must unwind (declared stuck) */
 static _Bool vf_park(void *addr) {
@@ -142,6 +172,8 @@ int64_t vf_syscall(uint64_t nr, uint64_t a1, uint64_t a2, uint64_t a3, uint64_t 
   return -1;
 }
 
+#endif /* !VF_SEQ */
+
 /* --- memory --------------------------------------------------------------------------------- */
 uint64_t vf_last_malloc_a, vf_last_malloc_n, vf_last_free_a;
 uint64_t vf_last_malloc_addr(void) { return vf_last_malloc_a; }
@@ -162,9 +194,12 @@ uint64_t vf_aa_allocs, vf_aa_frees;
 #ifdef VF_AA_DYNAMIC
 /* variant without a static arena: one fresh object per block, placed at a symbolic 16-aligned
  * offset inside it (object bases have zero low bits in CBMC's pointer encoding) */
+#ifndef VF_AA_MAXGAP
+#define VF_AA_MAXGAP (1u << 17)
+#endif
 void *vf_malloc(uint64_t n) {
   uint64_t gap = nondet_u64();
-  __CPROVER_assume(gap % 16 == 0 && gap < (1u << 17));
+  __CPROVER_assume(gap % 16 == 0 && gap < VF_AA_MAXGAP);
   char *o = __CPROVER_allocate(n + gap, 0);
   __CPROVER_assume(o != 0);
   vf_aa_allocs++;
@@ -187,11 +222,32 @@ void *vf_malloc(uint64_t n) {
 }
 #endif
 void vf_free(void *p) { if (p) vf_aa_frees++; vf_last_free_a = (uint64_t)p; }
+/* number of malloc-family calls / of non-null frees so far (address-aware model only) */
+uint64_t vf_malloc_count(void) { return vf_aa_allocs; }
+uint64_t vf_free_count(void) { return vf_aa_frees; }
 #else
 void *vf_malloc(uint64_t n) {
+#ifdef VF_MALLOC_U32
+  /* optional typed variant (rt_defs VF_MALLOC_U32 [+ VF_MALLOC_CAP=words]): the block is an array of
+   * 32-bit words, so word-sized accesses need no byte operations; with VF_MALLOC_CAP every block has
+   * that constant number of words (requests above it are an rt: failure = inconclusive) and the
+   * requested size is only recorded -- harnesses using it must check their own capacity bound
+   * against vf_last_malloc_size() */
+  uint64_t k = (n + 3) / 4;
+#ifdef VF_MALLOC_CAP
+  __CPROVER_assert(k <= VF_MALLOC_CAP, "rt: allocation larger than VF_MALLOC_CAP words");
+  k = VF_MALLOC_CAP;
+#endif
+  void *p = __CPROVER_allocate(k * sizeof(uint32_t), 0);
+  __CPROVER_assume(p != 0);
+  vf_last_malloc_a = (uint64_t)p;
+  vf_last_malloc_n = n;
+  return p;
+#else
   void *p = __CPROVER_allocate(n, 0);
   __CPROVER_assume(p != 0);
   return p;
+#endif
 }
 void vf_free(void *p) { free(p); }
 #endif
@@ -210,6 +266,8 @@ void vf_exit(int c) { vf_abort(); }
 void vf_assert_fail(void *a, void *b, unsigned c, void *d) { __CPROVER_assert(0, "ub: assert() failed in code under test"); __CPROVER_assume(0); }
 void vf_call_terminate(void *e) { vf_abort(); }
 int vf_sched_yield(void) { return 0; }
+int vf_nanosleep(void *req, void *rem) { return 0; } /* sleeping has no observable effect in the model */
+#ifndef VF_SEQ
 int vf_guard_acquire(void *g) {
   uint8_t *b = (uint8_t *)g;
   __CPROVER_atomic_begin();
@@ -225,6 +283,8 @@ void vf_guard_release(void *g) {
   b[0] = 1; b[1] = 0;
   __CPROVER_atomic_end();
 }
+
+#endif /* !VF_SEQ */
 int vf_cxa_atexit(void *f, void *a, void *d) { return 0; }
 #ifndef VF_HAVE_THREAD_ATEXIT
 int vf_cxa_thread_atexit(void *f, void *a, void *d) { return 0; }
@@ -249,8 +309,49 @@ void *vf_memchr(void *s, int c, uint64_t n) {
   for (uint64_t i = 0; i < n; i++) if (p[i] == (unsigned char)c) return p + i;
   return 0;
 }
-void vf_memcpy(void *d, const void *s, uint64_t n) { __builtin_memcpy(d, s, n); }
-void vf_memmove(void *d, const void *s, uint64_t n) { __builtin_memmove(d, s, n); }
+/* strtol in the C locale, base 10 only: isspace*, optional sign, digits; no digits -> 0 and *end = s;
+ * out of range -> LONG_MAX / LONG_MIN and errno = ERANGE */
+int64_t vf_strtol(void *s, void **end, int base) {
+  const char *p = s;
+  __CPROVER_assert(base == 10, "rt: strtol model supports base 10 only");
+  while (*p == ' ' || (*p >= '\t' && *p <= '\r')) p++;
+  _Bool neg = 0;
+  if (*p == '-') { neg = 1; p++; } else if (*p == '+') p++;
+  const char *d0 = p;
+  uint64_t lim = neg ? ((uint64_t)1 << 63) : (((uint64_t)1 << 63) - 1);
+  uint64_t v = 0;
+  _Bool ovf = 0;
+  while (*p >= '0' && *p <= '9') {
+    uint64_t dg = (uint64_t)(*p - '0');
+    if (ovf || v > (lim - dg) / 10) ovf = 1; else v = v * 10 + dg;
+    p++;
+  }
+  if (p == d0) { if (end) *end = s; return 0; }
+  if (end) *end = (void *)p;
+  if (ovf) { vf_errno = 34; return neg ? INT64_MIN : INT64_MAX; }
+  return neg ? (int64_t)(0 - v) : (int64_t)v;
+}
+/* libstdc++ std::string::_M_create(size_type& capacity, size_type old_capacity): length_error above
+ * max_size, geometric growth, storage for capacity+1 chars */
+void *vf_string_M_create(void *self, uint64_t *cap, uint64_t old_cap) {
+  const uint64_t mx = 0x3fffffffffffffffULL;
+  if (*cap > mx) vf_abort();
+  if (*cap > old_cap && *cap < 2 * old_cap) { *cap = 2 * old_cap; if (*cap > mx) *cap = mx; }
+  return vf_malloc(*cap + 1);
+}
+/* glibc __sched_cpucount (CPU_COUNT): number of set bits in the first setsize bytes */
+int vf_sched_cpucount(uint64_t setsize, void *set) {
+  uint64_t *w = set;
+  int n = 0;
+  for (uint64_t i = 0; i < setsize / 8; i++) n += __builtin_popcountll(w[i]);
+  return n;
+}
+/* cbmc 6.11 has no body for __builtin_memcpy / __builtin_memmove (the call would be a no-op with a
+ * failing "no body for callee" property): use the library models of memcpy / memmove */
+void *memcpy(void *, const void *, __CPROVER_size_t);
+void *memmove(void *, const void *, __CPROVER_size_t);
+void vf_memcpy(void *d, const void *s, uint64_t n) { memcpy(d, s, n); }
+void vf_memmove(void *d, const void *s, uint64_t n) { memmove(d, s, n); }
 void vf_memset(void *d, uint8_t c, uint64_t n) { __builtin_memset(d, c, n); }
 
 /* clock: arbitrary non-decreasing instants */
@@ -272,6 +373,7 @@ int vf_clock_gettime(int clk, void *ts) {
 }
 
 /* mutex = blocking lock on the first word of the pthread_mutex_t */
+#ifndef VF_SEQ
 int vf_mutex_lock(void *m) {
   uint32_t *w = (uint32_t *)m;
   __CPROVER_atomic_begin();
@@ -280,6 +382,8 @@ int vf_mutex_lock(void *m) {
   __CPROVER_atomic_end();
   return 0;
 }
+
+#endif /* !VF_SEQ */
 int vf_mutex_trylock(void *m) {
   uint32_t *w = (uint32_t *)m;
   int r = 16;
@@ -298,7 +402,9 @@ int vf_mutex_unlock(void *m) {
 int vf_personality(int a, int b, uint64_t c, void *d, void *e) { return 0; }
 
 /* --- exceptions as opaque tokens ------------------------------------------------------------ */
+#ifndef VF_SEQ
 __thread void *vf_caught;
+#endif
 void *vf_cxa_begin_catch(void *e) { vf_caught = e; return e; }
 void vf_cxa_end_catch(void) { }
 void vf_cxa_rethrow(void) { vf_exc_obj = vf_caught; vf_exc_sel = 1; vf_unw = 2; }
@@ -315,6 +421,7 @@ void vf_eptr_dtor(void *p) { }
 void vf_eptr_swap(void *a, void *b) { void *t = *(void **)a; *(void **)a = *(void **)b; *(void **)b = t; }
 _Bool vf_uncaught_exception(void) { return 0; }
 
+#ifndef VF_SEQ
 /* --- entry ---------------------------------------------------------------------------------- */
 void vf_global_ctors(void);
 void vf_main(void);
@@ -338,3 +445,6 @@ void vf_entry(void) {
 #endif
 #endif
 }
+#else
+#include "seq_rt.c"
+#endif
